@@ -139,6 +139,10 @@ def run(ctx):
     quick = ctx.tier == 'quick'
     B = checker.BLANKLINE_MARKER
     check_listed_findings(ctx)
+    # the relation as DoctestPart.check applies it (check_got_vs_want: stdout, then the value's repr): got is got and want is want
+    # on every path, under one and the same flags
+    from harness.props import c02
+    c02.gvw_unit(ctx)
 
     # ---- step level -------------------------------------------------------
     L = 6 if quick else 7
@@ -315,6 +319,9 @@ def run(ctx):
 
 def replay(path):
     d = json.load(open(path))
+    if d.get('kind') == 'gvw-unit':
+        from harness.props import c02
+        return c02.replay_gvw(d, path, 'C05')
     if 'got' in d and 'want' in d:
         b = impl_bits(d['got'], d['want'])
         a = common.model_batch([('check_output_allflags', d['got'], d['want'])], raw=True)[0]
